@@ -172,7 +172,13 @@ SRepeat ==
           Bn("and", Bn("!=", r, Fld(VarR("@A"), "s")), Bn("=", Call("abs", r), NumA("1")))}
          : r \in {Own("s"), Own("n"), Own("b"), Fld(Own("m"), "t"), Fld(VarR("@A"), "s"), Fld(VarR("@A"), "n"),
                   Fld(Idx(Own("ms"), Own("k")), "t"), Idx(Own("xs"), NumA("0"))}}
-SBound == { Qn("forall", "j", Fld(Idx(Own("ms"), Idx(Own("fx"), NumA("3"))), "deep"), Bn(">", VarR("@j"), NumA("0"))),
+SBound == { \* the variable ranges over numbers / over arrays (gg: Inner[][]): a field path through it does not resolve
+            Qn("forall", "j", Own("xs"), Bn(">", Fld(VarR("@j"), "n"), NumA("0"))),
+            Qn("exists", "j", Own("gg"), Bn(">", Fld(VarR("@j"), "n"), NumA("0"))),
+            Qn("forall", "j", Idx(Own("gg"), NumA("0")), Bn(">", Fld(VarR("@j"), "n"), NumA("0"))),
+            Qn("forall", "j", Idx(Own("gg"), Own("k")), Bn(">", Fld(VarR("@j"), "nope"), NumA("0"))),
+            Qn("exists", "j", Fld(VarR("@A"), "gg"), Bn("=", Fld(VarR("@j"), "t"), Own("s"))),
+            Qn("forall", "j", Fld(Idx(Own("ms"), Idx(Own("fx"), NumA("3"))), "deep"), Bn(">", VarR("@j"), NumA("0"))),
             Qn("forall", "j", Idx(Own("xs"), Own("nope")), Bn(">", VarR("@j"), NumA("0"))),
             Qn("exists", "j", Fld(VarR("@A"), "xs"), Bn(">", Idx(Own("xs"), Idx(Own("fx"), NumA("5"))), VarR("@j"))), Qn("forall", "j", Own("ms"), Bn(">", Fld(VarR("@j"), "n"), NumA("0"))),
             Qn("forall", "j", Own("ms"), Bn(">", Fld(VarR("@j"), "nope"), NumA("0"))),
